@@ -76,6 +76,7 @@ fn main() {
         "uringfault" => crashdrv::uringfault_main(rest),
         "apisurface" => apidrv::main(rest),
         "hotkey" => apidrv::hotkey(rest),
+        "renewstory" => seqdrv::renewstory(rest),
         "damage" => damagedrv::main(rest),
         "clocksat" => seqdrv::clocksat(rest),
         "faultstory" => seqdrv::faultstory(rest),
